@@ -133,6 +133,7 @@ def _update_perm_decompr_indices(
         combs_perm, combs33 = _N3N3_to_NNand33(combs_perm, natom)
         decompr_idx_combs_perm = atomic_decompr_idx[combs_perm] * 9 + combs33
         decompr_idx_combs_perm = decompr_idx_combs_perm.reshape(-1, n_perms_sym)
+        orbit_reps = decompr_idx_combs_perm.min(axis=1)
         for orbit_components in decompr_idx_combs_perm.T:
-            perm_decompr_idx[orbit_components] = decompr_idx_combs_perm[:, 0]
+            perm_decompr_idx[orbit_components] = orbit_reps
     return perm_decompr_idx
